@@ -587,7 +587,6 @@ fn known_fail(rep: &mut Report, key: &str, v: Value) {
 
 const KF_FLOAT: &str = "c28-integral-float-printed-as-integer";
 const KF_NEWLINE: &str = "c28-newline-in-literal-splits-the-line";
-const KF_LENS_PANIC: &str = "c28-beautify-panics-on-non-ascii-lens";
 
 struct Outcome { accepted: bool }
 
@@ -610,9 +609,7 @@ fn check_script(ctx: &mut Ctx, rep: &mut Report, air: &str, g: Option<&G>, origi
             (Err(pp), Err(bp)) => {
                 rep.case(&canon, false, || json!({}));
                 rep.stat("outcome:both_panic");
-                let key = if pp.contains("is not a char boundary") && bp.contains("is not a char boundary") { Some(KF_LENS_PANIC) } else { None };
-                let mut f = json!({"why": format!("beautify panics: {bp}"), "input": {"air": air, "patterns": patterns, "step": step}, "origin": origin});
-                if let Some(k) = key { f["finding_key"] = json!(k); known_fail(rep, k, f); } else { rep.oracle_fail(f); }
+                rep.oracle_fail(json!({"why": format!("beautify panics: {bp}; the parser panics too: {pp}"), "input": {"air": air, "patterns": patterns, "step": step}, "origin": origin}));
                 return Outcome { accepted: false };
             }
             (Err(pp), Ok(_)) => { rep.case(&canon, false, || json!({})); rep.oracle_fail(json!({"why": format!("air_parser::parse panics ({pp}) but beautify does not"), "input": {"air": air, "patterns": patterns, "step": step}})); return Outcome { accepted: false }; }
@@ -789,9 +786,9 @@ pub fn run(ctx: &mut Ctx, rep: &mut Report) {
         let o = check_script(ctx, rep, &m, None, "mutated", None);
         rep.stat(if o.accepted { "mutant_accepted" } else { "mutant_rejected" });
     }
-    // non-ASCII characters inside a lens: the known slicing panic of the lambda lexer reaches the beautifier
+    // non-ASCII characters inside a lens: regression for the slicing panic of the lambda lexer (fixed by 5981066)
     for air in ["(seq (ap 1 x) (ap x.$.é y))", "(seq (ap 1 x) (call \"p\" (\"s\" \"f\") [x.$.a.名]))", "(ap %last_error%.$.ü y)"] {
-        check_script(ctx, rep, air, None, "non_ascii_lens", Some(KF_LENS_PANIC));
+        check_script(ctx, rep, air, None, "non_ascii_lens", None);
     }
 }
 
